@@ -1,6 +1,7 @@
 package worldp
 
 import (
+	"github.com/google/uuid"
 	"bytes"
 	"context"
 	"fmt"
@@ -83,6 +84,9 @@ type partialVCS struct {
 	failReadAt int
 	reads      int
 	readFired  bool
+	// meanwhile, when set, runs once, just before the run's first read of the manifest: another
+	// operator's run going through in the middle of this one (the back end has no isolation)
+	meanwhile func()
 }
 
 type partialOps struct {
@@ -106,6 +110,10 @@ func (o *partialOps) ReadFile(ctx context.Context, path string) ([]byte, error) 
 		p.readFired = true
 		p.r.Fault("read-error", "read %d of the run: %s", k, filepath.Base(path))
 		return nil, fmt.Errorf("simulated storage failure reading %s: input/output error", path)
+	}
+	if f := p.meanwhile; f != nil && strings.HasSuffix(path, endorse.ManifestFile) {
+		p.meanwhile = nil
+		f()
 	}
 	return o.ChangeOps.ReadFile(ctx, path)
 }
@@ -191,6 +199,22 @@ func checkManifest(r *core.Run, files map[string][]byte, outPath string, where s
 		}
 	}
 	return entries, true
+}
+
+func indexOfImage(pool []*images.Image, im *images.Image) int {
+	for i, p := range pool {
+		if p == im {
+			return i
+		}
+	}
+	return 0
+}
+
+func errClass13(err error) string {
+	if err == nil {
+		return "ok"
+	}
+	return "error"
 }
 
 func prefixOf(b []byte, n int) []byte {
@@ -298,8 +322,39 @@ func runC13(r *core.Run) {
 				partial.failReadAt = r.Intn(3, "fail-at-read")
 			}
 		}
+		// (write-through back end) another operator's run for the same candidate name, another image,
+		// goes through completely while this run is in the middle of its own; neither has --overwrite.
+		// Whoever creates the file first keeps it.
+		var rivalFile string
+		var rivalBytes []byte
+		if partial != nil && partial.failAt < 0 && partial.failReadAt < 0 && !q.Overwrite && !q.KeepGoing && q.SnapshotDir == "" && !q.ViaCLI && q.Reuse == nil && r.Chance(12, "rival-run-in-the-middle?") {
+			dv := view.(dirView)
+			rq := q
+			rq.Image = pool[(indexOfImage(pool, q.Image)+1)%len(pool)]
+			rq.ClSpec = q.ClSpec + 1000
+			partial.meanwhile = func() {
+				_, rerr := Endorse(r, a, &localnonvcs.T{Root: dv.dir}, rq, scratch)
+				uuid.SetRand(core.NewDetReader(r.Seed ^ 0x2e2e ^ uint64(r.NEvents())<<16)) // the inner run reset it
+				base := rq.Candidate
+				if base == "" {
+					base = endorse.DefaultEndorsementBasename
+				}
+				if rerr == nil {
+					rivalFile = path.Join(outPath, base+".binarypb")
+					rivalBytes = append([]byte(nil), view.files()[rivalFile]...)
+				}
+				r.Eventf("rival run in the middle -> %s", errClass13(rerr))
+				r.Probe("rival-run-in-the-middle")
+			}
+		}
 		_, err := Endorse(r, a, view.vcs(), q, scratch)
+		if partial != nil {
+			partial.meanwhile = nil
+		}
 		after := view.files()
+		if rivalBytes != nil && !bytes.Equal(after[rivalFile], rivalBytes) {
+			r.Fail("clobber-without-overwrite", "rival-file", "backend %d after run %d %s -> %v: another run created %s while this one was under way; without --overwrite this run replaced it", backend, i+1, q, err, rivalFile)
+		}
 		faulted := partial != nil && partial.fired
 		if faulted && err == nil {
 			r.Probe("run-succeeded-despite-failed-write")
